@@ -114,9 +114,66 @@ def near_keys(c, runner):
         shutil.rmtree(base, ignore_errors=True)
 
 
+def reader_slots_exhausted(c, runner):
+    """fault injection: the request arrives while every LMDB reader slot is taken (126 open read transactions - a relay under
+    load), so the lookup of a named target FAILS rather than answering. Whatever the request replies, another author's events
+    stay retrievable and unmarked once the readers are gone (oracle: the property text; no model involved)."""
+    rng = c.rng
+    Q = c.tier == 'quick'
+    base = os.path.join(RUNDIR, 'C10f-%d' % os.getpid())
+    os.makedirs(base, exist_ok=True)
+    try:
+        lines, meta = [], []
+        for k in range(12 if Q else 150):
+            g = HistGen(rng, 'C10')
+            va, fa = rng.sample(AUTHORS, 2)
+            kind = [1, 30023, 10002, 1][k % 4]
+            d = b'x' if kind == 30023 else b''
+            x = g.new_event(kind=kind, pk=va, t=1000, tags=[[b'd', d]] if kind == 30023 else [], content=b'victim')
+            own = g.new_event(kind=1, pk=fa, t=1000, tags=[], content=b'own')
+            tags = []
+            if rng.random() < 0.5:
+                tags.append([b'e', own['id'].hex().encode()])
+            tags.append([b'e', x['id'].hex().encode()])
+            if kind != 1 and rng.random() < 0.6:
+                tags.insert(rng.randrange(len(tags) + 1), [b'a', str(kind).encode() + b':' + va.hex().encode() + b':' + d])
+            req = g.new_event(kind=5, pk=fa, t=2000, tags=tags, content=b'')
+            nheld = rng.choice([126, 126, 200, 125, 124])
+            start = len(lines)
+            lines += ['NEW %s -' % os.path.join(base, 'f%d' % k), 'STO ' + ev_tok(x), 'STO ' + ev_tok(own),
+                      'RDF %d STO %s' % (nheld, ev_tok(req)),
+                      'HAS ' + hx(x['id']), 'GID ' + hx(x['id']), 'DEL ' + hx(x['id']), 'NAD %d %s %s' % (kind, hx(va), hx(d)),
+                      'HAS ' + hx(req['id']), 'RMD']
+            meta.append((start, kind, nheld))
+        out = c.worker.run(lines)
+        c.evaluations += len(meta)
+        for start, kind, nheld in meta:
+            r = out[start:start + 10]
+            rep = lines[start:start + 9]
+            rq, has, gid, dl, nad, hreq = r[3], r[4], r[5], r[6], r[7], r[8]
+            c.count('readers_full_request:%s' % ' '.join(rq.split(' ')[:2])[:24])
+            if not rq.startswith('held='):
+                c.violation('oracle', 'request under exhausted reader slots did not complete: %s' % rq[:60], rep)
+                continue
+            why = None
+            if has != '1' or not gid.startswith('some'):
+                why = "the victim's event is no longer retrievable"
+            elif dl != '0':
+                why = "the victim's event carries a deletion marker"
+            elif kind != 1 and nad not in ('none', 'no'):
+                why = "the victim's address carries a deletion marker (%s)" % nad[:20]
+            if why:
+                c.violation('oracle', 'a deletion request of another author arriving while all reader slots are taken (%s): %s' % (rq[:24], why), rep)
+            else:
+                c.nontriv(('readers-full', kind, nheld, rq[:20]))
+    finally:
+        shutil.rmtree(base, ignore_errors=True)
+
+
 def both(c, runner):
     races(c, runner)
     near_keys(c, runner)
+    reader_slots_exhausted(c, runner)
 
 
 def run():
